@@ -538,6 +538,10 @@ def _get_validity_mask(
         prior_invalid_genes = np.ones(n_genes, dtype=bool)
         prior_invalid_genes[valid_gene_idx] = False
 
+    # cannot ask for more markers than there are genes
+    # (as in diff_exp.scores.approx_penetrance_test)
+    n_valid = min(n_valid, n_genes)
+
     eps = 1.0e-6
     p_mask = np.zeros(n_genes, dtype=bool)
     penetrance_dist = np.zeros(n_genes, dtype=float)
